@@ -262,7 +262,7 @@ PROPERTIES = {
     },
     'C11': {
         'main_scenarios': ['restart'],
-        'units': [io.ReadPhaseSpace, io.MakePSFromHDF5, mainspec.MainStartDistribution, mainloop.MainLoop, io.ProgramOptionsGetters, io.ProgramOptionsPrecedence],
+        'units': [io.ReadPhaseSpace, io.MakePSFromHDF5, io.HDF5FileSources, mainspec.MainStartDistribution, mainloop.MainLoop, io.ProgramOptionsGetters, io.ProgramOptionsPrecedence],
         'native_sweep': {'harness': 'h5start_replay', 'runs': [['all']], 'hdf5': True},
         'lemmas': [],
         'level': 'other',
